@@ -15,6 +15,12 @@ def _compile(path, extra=()):
         m = re.match(r'^(.*?):(\d+):(\d+): (fatal error|error): (.*)$', l)
         if m:
             errs.append((m.group(1), int(m.group(2)), m.group(5)))
+            continue
+        # an error inside a library header raised while instantiating something the witness file asked for: it belongs to the line of
+        # the witness file that requested the instantiation (the outermost "requested here" note)
+        m = re.match(r'^(.*?):(\d+):(\d+): note: in instantiation of .* requested here$', l)
+        if m and errs and os.path.abspath(m.group(1)) == os.path.abspath(path) and os.path.abspath(errs[-1][0]) != os.path.abspath(path):
+            errs[-1] = (m.group(1), int(m.group(2)), 'while instantiating: %s (%s:%d)' % (errs[-1][2], os.path.basename(errs[-1][0]), errs[-1][1]))
     return r.returncode, errs, r.stderr
 
 
@@ -25,7 +31,7 @@ def positive(ctx, rid, fname, text):
     if not os.path.exists(path):
         raise Broken('witness file missing: ' + fname)
     src = open(path).read().splitlines()
-    obl = [(i + 1, l.strip()) for i, l in enumerate(src) if re.match(r'\s*(static_assert|WITNESS)\b', l)]
+    obl = [(i + 1, l.strip()) for i, l in enumerate(src) if re.match(r'\s*(static_assert|WITNESS)\b', l) or re.match(r'\s*template\s+[^<].*;\s*//\s*WITNESS\b', l)]
     rc, errs, raw = _compile(path)
     mine = [(ln, msg) for (f, ln, msg) in errs if os.path.basename(f) == fname]
     other = [(f, ln, msg) for (f, ln, msg) in errs if os.path.basename(f) != fname]
